@@ -441,7 +441,8 @@ Definition cstate := Dedup.Model.st.
 Definition cinit (getmid : Z) : cstate := Dedup.Model.init (u32 (getmid - 32767)).
 
 Definition cstep (maxsize : Z) (t : mhtab) (s : cstate) (d : list Z) : presult cstate cout :=
-  if maxsize <? blen d then POk s [] true 0
+  if negb (bytes_ok d) then POk s [] true 0    (* typing guard: a datagram is a string of bytes 0..255 *)
+  else if maxsize <? blen d then POk s [] true 0
   else match udp_decode d with
   | DPanic => PPanic
   | DErr _ => POk s [] true 0
